@@ -1612,7 +1612,10 @@ class BuiltinsMixin(object):
         if r is not None:
             return r
         vc = self.class_of(v, path)
-        if isinstance(v, Sym) and v.typ is not None and v.typ[0] == 'inst':
+        if vc is not None and ((isinstance(v, Sym) and v.typ is not None and
+                                v.typ[0] == 'inst') or
+                               (isinstance(v, App) and
+                                v.op in ('item', 'attr', 'dictget'))):
             # known lower bound only: instance of typ (or subclass)
             if vc.is_subclass_of(ci):
                 return True
@@ -2003,7 +2006,8 @@ class BuiltinsMixin(object):
             if not rest:
                 return [(path, Const(False))]
             return [(path, rest[0] if len(rest) == 1 else App('or', *rest))]
-        return [(path, App('any', *[self.snapshot(a, path) for a in args]))]
+        return [(path, App('any', *[self.snapshot_deep(a, path)
+                                    for a in args]))]
 
     def bi_all(self, args, kw, path, node):
         items = self.concrete_iter(args[0], path) if len(args) == 1 else None
@@ -2014,7 +2018,8 @@ class BuiltinsMixin(object):
             if not rest:
                 return [(path, Const(True))]
             return [(path, rest[0] if len(rest) == 1 else App('and', *rest))]
-        return [(path, App('all', *[self.snapshot(a, path) for a in args]))]
+        return [(path, App('all', *[self.snapshot_deep(a, path)
+                                    for a in args]))]
 
     def bi_getattr(self, args, kw, path, node):
         if len(args) >= 2 and isinstance(args[1], Const):
